@@ -10,7 +10,7 @@
    and skipping more components only turns "different" into "equal" for the whole comparison; the
    parse-and-compare entry point hands back both URIs.
    The lists compared are the first 100 entries (known finding F13: the library's temporaries). *)
-From Sipsp Require Import Harness CmpLaws CmpLists.
+From Sipsp Require Import Harness CmpLaws CmpLists UListSpec UHListSpec CmpRender.
 From Coq Require Import Permutation.
 Theorem C15_short_compare_symmetric : forall u1 b1 u2 b2 f, uri_cmp_short u1 b1 u2 b2 f = uri_cmp_short u2 b2 u1 b1 f.
 Proof. exact cmp_short_sym. Qed.
@@ -89,6 +89,47 @@ Proof.
   - unfold params_ok. vm_compute. intros _. repeat (constructor; [cbn; intuition discriminate|]). constructor.
   - unfold hdrs_ok. vm_compute. intros _. repeat (constructor; [cbn; intuition discriminate|]). constructor.
 Qed.
+
+(* ---- parser side of the laws: the comparison of two TEXTS name=value<sep>...<sep>name=value is the comparison of the pairs written ------- *)
+Theorem C15_header_texts_compare_as_written : forall ps ps', hlist_ok ps -> hlist_ok ps' ->
+  uri_hdrs_eq (hl_bytes cmp_flags_hdrs ps) 0 (hl_bytes cmp_flags_hdrs ps') 0 = Some (uhdrs_entries_eq ps ps', EOk).
+Proof. exact uri_hdrs_eq_rendered. Qed.
+(* ... so a rendering is equal to another one iff it holds the same pairs up to letter case, in any order *)
+Theorem C15_header_texts_equal_iff_permuted_recased : forall ps ps', hlist_ok ps -> hlist_ok ps' -> names_nodup ps -> names_nodup ps' ->
+  (uri_hdrs_eq (hl_bytes cmp_flags_hdrs ps) 0 (hl_bytes cmp_flags_hdrs ps') 0 = Some (true, EOk) <-> Permutation (map lp ps) (map lp ps')).
+Proof. exact uri_hdrs_eq_rendered_iff. Qed.
+Theorem C15_parameter_texts_compare_as_written : forall ps ps', plist_ok ps -> plist_ok ps' ->
+  uri_params_eq (l_bytes cmp_flags_params ps) 0 (l_bytes cmp_flags_params ps') 0
+  = Some (uparams_entries_eq (tyof ps) (tyof ps') (map pent_of ps) (map pent_of ps'), EOk).
+Proof. exact uri_params_eq_rendered. Qed.
+Theorem C15_parameter_texts_permuted_recased_are_equal : forall ps ps', plist_ok ps -> plist_ok ps' -> keys_nodup (map pent_of ps) ->
+  Permutation (map lp ps) (map lp ps') -> uri_params_eq (l_bytes cmp_flags_params ps) 0 (l_bytes cmp_flags_params ps') 0 = Some (true, EOk).
+Proof. exact uri_params_eq_rendered_perm. Qed.
+Theorem C15_parameter_texts_with_another_value_differ : forall ps ps' x y, plist_ok ps -> plist_ok ps' -> keys_nodup (map pent_of ps') ->
+  In x ps -> In y ps' -> pkey (pent_of x) = pkey (pent_of y) -> map to_lower (snd x) <> map to_lower (snd y) ->
+  uri_params_eq (l_bytes cmp_flags_params ps) 0 (l_bytes cmp_flags_params ps') 0 = Some (false, EOk).
+Proof. exact uri_params_eq_rendered_differs. Qed.
+(* what the hypotheses say *)
+Theorem C15_text_lists_ok_means : forall ps,
+  (hlist_ok ps <-> ps <> [] /\ Forall (h_ok cmp_flags_hdrs) ps /\ (length ps <= cmp_cap)%nat) /\
+  (plist_ok ps <-> ps <> [] /\ Forall (p_ok cmp_flags_params) ps /\ (length ps <= cmp_cap)%nat).
+Proof. intros. split; reflexivity. Qed.
+(* satisfiable: "transport=udp;x=1" against "X=1;Transport=UDP"; "x=1&yy=2" against "YY=2&x=1" *)
+Example C15_texts_example :
+  let ps := [([116;114;97;110;115;112;111;114;116], [117;100;112]); ([120], [49])] in
+  let ps' := [([88], [49]); ([84;114;97;110;115;112;111;114;116], [85;68;80])] in
+  let hs := [([120], [49]); ([121;121], [50])] in
+  let hs' := [([89;89], [50]); ([120], [49])] in
+  plist_ok ps /\ plist_ok ps' /\ keys_nodup (map pent_of ps) /\ Permutation (map lp ps) (map lp ps') /\
+  hlist_ok hs /\ hlist_ok hs' /\ names_nodup hs /\ names_nodup hs' /\ Permutation (map lp hs) (map lp hs').
+Proof.
+  cbv zeta. repeat split; try discriminate; try (unfold cmp_cap; cbn [length]; repeat constructor).
+  all: try (repeat constructor; try discriminate; try reflexivity).
+  all: try (cbn; intuition discriminate).
+  all: try (vm_compute; apply perm_swap).
+Qed.
 Print Assumptions C15_comparison_symmetric.
+Print Assumptions C15_header_texts_equal_iff_permuted_recased.
+Print Assumptions C15_parameter_texts_permuted_recased_are_equal.
 Print Assumptions C15_header_lists_equal_iff.
 Print Assumptions C15_parameter_lists_equal_iff.
